@@ -243,6 +243,8 @@ fn run_seq(cap: u32, init: u32, ops: &[AOp]) -> Result<Run, Failure> {
 enum MOp {
     Alloc { pages: usize, lowest: bool },
     Free(usize),
+    /// the region shrink step of commit()
+    Shrink { force: bool },
 }
 
 fn order_of(pages: usize) -> u8 {
@@ -272,9 +274,16 @@ fn run_mem(tape: &Tape, out: &mut CaseOut) -> Result<(), Failure> {
     let mut grew = 0u32;
     let mut refilled_after_free = false;
     let mut freed_any = false;
+    let mut shrunk = 0u32;
+    let mut dropped_region = false;
+    let mut before_shrink_regions_max = used.len();
     for rec in &tape.recs {
+        before_shrink_regions_max = before_shrink_regions_max.max(used.len());
         let mut r = Rec::new(rec);
-        let op = if r.u8() < 170 || live.is_empty() {
+        let sel = r.u8();
+        let op = if sel >= 244 {
+            MOp::Shrink { force: r.bool() }
+        } else if sel < 150 || live.is_empty() {
             let pages = match r.u8() % 10 {
                 0..=3 => 1,
                 4 => 2,
@@ -335,6 +344,37 @@ fn run_mem(tape: &Tape, out: &mut CaseOut) -> Result<(), Failure> {
                 }
                 live.push(got);
             }
+            MOp::Shrink { force } => {
+                let changed = match catch(|| mem.shrink(force)) {
+                    Ok(Ok(b)) => b,
+                    Ok(Err(e)) => return Err(fail("mem-shrink-error", format!("shrink(force={force}) failed: {e:?}"))),
+                    Err(p) => return Err(Failure::new(format!("panic:{}", normalize_sig(&p)), format!("panic in the region shrink step (force={force}): {p}"))),
+                };
+                let after = mem.snapshot();
+                if after.regions.len() > used.len() {
+                    return Err(fail("mem-shrink-grew", format!("shrink added regions: {} -> {}", used.len(), after.regions.len())));
+                }
+                // only free pages may disappear
+                for (i, u) in used.iter().enumerate() {
+                    let keep = after.regions.get(i).map(|r| r.len as usize).unwrap_or(0);
+                    if keep > u.len() {
+                        return Err(fail("mem-shrink-grew", format!("shrink made region {i} larger: {} -> {keep} pages", u.len())));
+                    }
+                    if u[keep..].iter().any(|x| *x) {
+                        return Err(fail("mem-shrink-dropped-live-block", format!("shrink(force={force}) cut region {i} to {keep} pages although a live block lies beyond")));
+                    }
+                }
+                used.truncate(after.regions.len());
+                for (i, u) in used.iter_mut().enumerate() {
+                    u.truncate(after.regions[i].len as usize);
+                }
+                if changed {
+                    shrunk += 1;
+                    if after.regions.len() < before_shrink_regions_max {
+                        dropped_region = true;
+                    }
+                }
+            }
             MOp::Free(k) => {
                 let p = live.remove(k % live.len());
                 if let Err(pn) = catch(|| mem.free(p)) {
@@ -359,6 +399,12 @@ fn run_mem(tape: &Tape, out: &mut CaseOut) -> Result<(), Failure> {
     out.class("page-manager level case (region tracker + growth)");
     if grew > 0 {
         out.class("page-manager case with file growth");
+    }
+    if shrunk > 0 {
+        out.class("page-manager case with a region shrink that changed the layout");
+    }
+    if dropped_region {
+        out.class("page-manager case in which a shrink dropped a whole region");
     }
     if refilled_after_free {
         let mut h = Fnv::new();
@@ -401,7 +447,7 @@ impl Check for C14 {
         vec!["resize shrinks only by trailing free pages (precondition of try_shrink)".into(), "free is called only on live blocks at their own order".into()]
     }
     fn fuzz_runs(&self) -> u64 {
-        4_000_000
+        1_200_000
     }
     fn plan(&self, tier: Tier) -> Plan {
         Plan { cases: tier.pick(300_000, 6_000_000), max_recs: 80, max_shrink_iters: 5000, workers: 16 }
